@@ -92,8 +92,11 @@ PROPS = {
                 extra_assumptions=[
                     "the text is 'compiled' by a parser that accepts exactly "
                     "the documented shape (one static_offsets specialisation "
-                    "per line); whether a C++ compiler accepts it is not "
-                    "decided here",
+                    "per line); in a sample of runs (about 1 offsets event in "
+                    "170) the text is also given to g++ or clang++ "
+                    "(-fsyntax-only, after forward declarations of the "
+                    "library's templates and the harness's types); MSVC is "
+                    "not available",
                     "the specialisations hold run-time filled arrays instead "
                     "of constexpr ones; the library only reads slots[i] and "
                     "strides[i]",
@@ -122,8 +125,10 @@ PROPS = {
                     "the emitted text is 'compiled' by a parser of braced "
                     "initialisers that rejects what a compiler would reject "
                     "for this shape (negative bounds, excess initialisers, "
-                    "constants that do not fit); acceptance by the supported "
-                    "compilers themselves is not decided here",
+                    "constants that do not fit); in 1 % of the runs the text "
+                    "is also given to g++ or clang++ (-fsyntax-only, inside a "
+                    "function body, with a stand-in for decode_dispatch_data "
+                    "and the policy name declared); MSVC is not available",
                     "the decoded block is one malloc'ed object of exactly the "
                     "declared size: AddressSanitizer reports any read or "
                     "write outside it",
